@@ -293,6 +293,8 @@ inline std::string run_case(const CaseFn &fn, const std::vector<uint32_t> &words
     } catch (const std::exception &e) {
         fail = std::string("unexpected exception escaped the case body: ") + typeid(e).name() + ": " + e.what();
     }
+    // HDF5 keeps freed memory on internal free lists; without this a long run grows by ~1 MB per case
+    H5garbage_collect();
     if (fail.empty() && record) {
         if (ctx.nontrivial) {
             std::string tr = ctx.trace.str();
